@@ -606,7 +606,10 @@ def mon_c14(ix: Index):  # noqa: C901, PLR0912
         d = delivered.get(name)
         if k == "susp":
             n += 1
-            if ok_ != "wfcb" and e.get("st") != "STARTED":
+            # only a status the SDK must already know (the one the invocation started with) is held against it: a completion
+            # that lands while the call is in progress may not have reached the SDK yet
+            st0 = next((x["statuses"].get(e.get("oid")) for x in ix.by_inv.get(e["inv"], []) if x["kind"] == "inv_start"), None)
+            if ok_ != "wfcb" and e.get("st") != "STARTED" and st0 == e.get("st"):
                 out.append(V("C14", "C14/suspended-although-not-outstanding/%s-%s" % (ok_, e.get("st")), "%s suspended with status %s" % (path, e.get("st")), e["i"]))
         elif k == "ret" and ok_ in ("cb", "invoke"):
             n += 1
